@@ -100,7 +100,7 @@ func c14SelectorSub() *engine.Sub {
 	return &engine.Sub{
 		Name:   "selector-text",
 		Repeat: true,
-		Rule:   `every string over {. [ ] " ? : - 0 1 a _ \ * space} up to the length bound offered to selector.Parse, plus every bracket content of up to 6 symbols over {0 1 - :} with two or more colons (in .[...] and .a[...]?), plus 12 quoted field names made of bytes outside ASCII (not UTF-8, ending inside a character, U+FFFD, composed / decomposed spellings) in 6 selector shapes, and 19 integers at and beyond 2^31, 2^32, 2^53, 2^63, 2^64, 2^65 and 2^128 (also n + 2^64 for small n) as index and slice bounds in 9 shapes; for every accepted string: printing reproduces the text (up to '?' after an identity dot), the printed text parses to the same segments with identical Select results on 33 values, every segment re-parsed alone has the same meaning, and every unquoted bracket is empty, one integer or lo:hi with one colon (an independent three-line grammar); non-trivial = accepted strings`,
+		Rule:   `every string over {. [ ] " ? : - 0 1 a _ \ * space} up to the length bound offered to selector.Parse, plus every bracket content of up to 6 symbols over {0 1 - :} with two or more colons (in .[...] and .a[...]?), plus every pair of slices in a row with bounds over {none, 0, 1, 2, -1}, plus 12 quoted field names made of bytes outside ASCII (not UTF-8, ending inside a character, U+FFFD, composed / decomposed spellings) in 6 selector shapes, and 19 integers at and beyond 2^31, 2^32, 2^53, 2^63, 2^64, 2^65 and 2^128 (also n + 2^64 for small n) as index and slice bounds in 9 shapes; for every accepted string: printing reproduces the text (up to '?' after an identity dot), the printed text parses to the same segments with identical Select results on 33 values, every segment re-parsed alone has the same meaning, and every unquoted bracket is empty, one integer or lo:hi with one colon (an independent three-line grammar); non-trivial = accepted strings`,
 		Bound: func(t string) string {
 			return fmt.Sprintf("all strings of length <=%d over 14 symbols", tierN(t, 5, 8))
 		},
@@ -134,6 +134,19 @@ func c14SelectorSub() *engine.Sub {
 				}
 				return emit(&c14SelCase{S: ".[" + in + "]"}) && emit(&c14SelCase{S: ".a[" + in + "]?"})
 			})
+			// two slices in a row, each bound absent or one of 0, 1, 2, -1: a bound left open is open, whatever the slice before it said
+			bs := []string{"", "0", "1", "2", "-1"}
+			for _, a := range bs {
+				for _, b := range bs {
+					for _, c := range bs {
+						for _, d := range bs {
+							if !emit(&c14SelCase{S: ".[" + a + ":" + b + "][" + c + ":" + d + "]"}) || !emit(&c14SelCase{S: ".a[" + a + ":" + b + "]?[" + c + ":" + d + "]"}) {
+								return
+							}
+						}
+					}
+				}
+			}
 			for _, name := range c14ByteNames {
 				for _, form := range []string{`.["%s"]`, `.a["%s"]`, `.["%s"]?`, `.["%s"][0]`, `.["%s"]["%s"]`, `.["a"]["%s"]?[1:]`} {
 					t := strings.ReplaceAll(form, "%s", name)
